@@ -141,6 +141,9 @@ func Main(t *testing.T, gens map[string]func(*Runner)) {
 	}
 	r.out = f
 	defer f.Close()
+	if v := envInt("VERIF_STALL_S", 0); v > 0 {
+		StallLimit = time.Duration(v) * time.Second
+	}
 	debug.SetTraceback("all")
 	r.write(rec{"t": "start", "prop": prop, "tier": r.Tier, "seed": r.Seed, "shard": r.Shard, "nshards": r.NShards, "skipto": r.SkipTo, "go": runtime.Version()}, true)
 	gen(r)
